@@ -4,13 +4,19 @@ from c04_alloc import mpz_obj
 from c03_mpz import norm_loop
 UNITS = []
 GEN = r'''
+#ifndef V_DFCC
+#define V_DFCC 0
+#endif
 /* generator contract (assumed; what randget_mt / randget_lc are meant to deliver): writes exactly ceil(nbits/64) limbs, arbitrary bits,
    the bits above nbits in the last limb are zero, nothing else is touched */
 static void V_randget (gmp_randstate_t st, mp_ptr rp, mpir_ui nbits)
 {
   __CPROVER_size_t nl = (nbits + 63) / 64;
   __CPROVER_assert (nl == 0 || __CPROVER_w_ok (rp, nl * 8), "[C19][C04] _gmp_rand: destination holds ceil(nbits/64) limbs");
-  if (nl != 0) __CPROVER_havoc_slice (rp, nl * 8);
+  /* NOTE: outside goto-instrument --dfcc, __CPROVER_havoc_slice with a symbolic size silently leaves the memory unchanged
+     (measured); one-limb requests, the only ones the non-DFCC units of this file make, are therefore written directly */
+  if (nl == 1) rp[0] = nondet_ulong ();
+  else if (nl != 0) { __CPROVER_assert (V_DFCC, "multi-limb generator output only in DFCC units"); __CPROVER_havoc_slice (rp, nl * 8); }
   if (nbits % 64 != 0) __CPROVER_assume ((rp[nl - 1] >> (nbits % 64)) == 0);
 }
 static const gmp_randfnptr_t V_fns = {0, V_randget, 0, 0};
@@ -33,7 +39,7 @@ UNITS.append(dict(
   g_div0_expected = (n == 0);
   mpir_ui r = __gmp_urandomm_ui (&R, n);
   __CPROVER_assert (n != 0 && r < n, "[C19] gmp_urandomm_ui: result in [0, n-1] (also after the 80-iteration fallback)");
-}''', selftest=[('__gmp_urandomm_ui', r'- \(\(\(\(n\) & \(\(n\) - 1\)\) == 0\) != 0\)', '')]))
+}''', selftest=[('__gmp_urandomm_ui', r'ret -= n;', 'ret -= 0;')]))
 UNITS.append(dict(
     name='mpn_urandomm', props=['C19', 'C04'], source='mpn/generic/urandomm.c', contracts=['mpn.h'], assumptions=ASM,
     enforce=['__gmpn_urandomm'], replace=['__gmpn_cmp'],
@@ -46,7 +52,7 @@ __CPROVER_ensures ((g_hd < gj && gj < n) ==> rp[gj] == mp[gj]);
 ''',
     functions={'__gmpn_urandomm': dict(loops={0: dict(scalars=[], slices=[('rp', 'n * 8')], inv='(b == 64 * (n - 1) + c && 1 <= c && c <= 64 && mp[n - 1] != 0 && (c == 64 || (mp[n - 1] >> c) == 0))',
                                                       havoc='g_hd = nondet_long ();', havoc_targets=['g_hd'], local_to_body=['__rstate'])})},
-    harness=GEN + '''void h_mpn_urandomm (void) {
+    harness='#define V_DFCC 1\n' + GEN + '''void h_mpn_urandomm (void) {
   V_RSTATE (R); mp_size_t n = nondet_long (); __CPROVER_assume (1 <= n && n <= V_NMAX);
   mp_limb_t *rp = malloc (n * 8), *mp = malloc (n * 8); gj = nondet_long ();
   __gmpn_urandomm (rp, &R, mp, n);
@@ -64,7 +70,7 @@ __CPROVER_ensures ((unsigned long) V_SIZ (rop) <= (nbits + 63) / 64)
 __CPROVER_ensures (((unsigned long) V_SIZ (rop) == (nbits + 63) / 64 && nbits % 64 != 0) ==> (V_PTR (rop)[V_SIZ (rop) - (V_SIZ (rop) > 0)] >> (nbits % 64)) == 0);
 ''',
     functions={'__gmpz_urandomb': dict(loops={0: norm_loop('rp', 'size', 'gk')})},
-    harness=GEN + 'void h_mpz_urandomb (void) {\n  V_RSTATE (R);\n' + mpz_obj('X') + '''  mp_bitcnt_t nbits = nondet_ulong ();
+    harness='#define V_DFCC 1\n' + GEN + 'void h_mpz_urandomb (void) {\n  V_RSTATE (R);\n' + mpz_obj('X') + '''  mp_bitcnt_t nbits = nondet_ulong ();
   gk = nondet_long (); gj = nondet_long (); gh = nondet_long ();
   __gmpz_urandomb (&X, &R, nbits);
-}''', selftest=[('__gmpz_urandomb', r'\(\(nbits\) \+ \(64 - 0\) - 1\) / \(64 - 0\)', '((nbits) + (64 - 0) - 1) / (64 - 0) - 1')]))
+}''', selftest=[('__gmpz_urandomb', r'\(\(rop\)->_mp_size\) = size', '((rop)->_mp_size) = size + 1')]))
